@@ -671,6 +671,28 @@ def spec_search(ctx, shim, model, r, nfonts):
                          "and no crash")
 
 
+def verb_search(ctx, shim, model, maxlen):
+    """hook `RearrangementCtx::transition` against Apple's verb table (Spec/Aat.applyVerb), all 16 verbs x all
+    marked ranges: a changed nibble of MAP shows up here with the failing verb and range."""
+    lines = rearr_lines(maxlen)
+    a = vlib.run_lines(shim, lines)
+    b = vlib.run_lines(model, [ln.replace("morx rearr", "morx specverb", 1) for ln in lines])
+    bad = moved = 0
+    for ln, x, y in zip(lines, a, b):
+        got = gids_of(x.split()[3]) if x.startswith("ok") else x
+        exp = gids_of(y.split()[1]) if y.startswith("ok") else y
+        if got != gids_of(ln.split()[7]): moved += 1
+        if got != exp:
+            bad += 1
+            if bad <= 1:
+                t = ln.split()
+                ctx.violation(f"rearrangement verb {int(t[2]) & 15} on range [{t[3]},{t[4]}) of {t[7]}: crate gives {got}, "
+                              f"Apple's verb table gives {exp}", {"stage": "search", "stream": "morx-verbs", "request": ln,
+                              "expected": exp, "observed": got})
+    ctx.note_search("morx-verbs", len(lines), moved, mismatches=bad,
+                    rule="16 verbs x every marked range of buffers <= %d glyphs; non-trivial = the range was permuted" % maxlen)
+
+
 CORPUS_SEEDS = ["lLAvA", "XXAYYAZZ", "ABCDE", "aeiou"]
 ALPHA = "abcdefghijklmnopqrstuvwxyzABCDEFGHIJKLMNOPQRSTUVWXYZ0123456789 .,-'"
 
@@ -847,11 +869,18 @@ def run(ctx):
     ctx.correspond("morx-compile", lines=compile_lines(ctx.rng("compile"), ctx.budget(1500, 40000)),
                    classify=classify_compile, canon=canon)
     # search
+    verb_search(ctx, shim, model, ctx.budget(8, 10))
     spec_search(ctx, shim, model, ctx.rng("spec"), ctx.budget(350, 7000))
     corpus_search(ctx, shim, ctx.rng("corpus"), ctx.budget(400, 12000))
     shape_vs_hook(ctx, shim, ctx.rng("shapehook"), ctx.budget(150, 3000))
     d17_probe(ctx, shim)
     slow_probe(ctx, shim, model)
+    # vlib.finish() reports a broken proof / correspondence on its own line only when no failing input was found;
+    # the genuine defects above always produce failing inputs, so say it here explicitly
+    if ctx.broken and any(v[2] for v in ctx.violations):
+        names = [str(b.get("module") or b.get("stream")) for b in ctx.broken]
+        ctx.violation("proof or correspondence no longer checks: " + ", ".join(names),
+                      {"stage": "prove/correspond", "broken": ctx.broken}, found_input=False)
 
 
 def replay(ctx, rp):
@@ -869,6 +898,12 @@ def replay(ctx, rp):
         print("crate:", a[:300]); print("spec :", b[:300])
         ok = a.startswith("ok") and (b == "undef" or gids_of(a.split()[3]) == gids_of(b.split()[1]))
         return 0 if ok else 1
+    if st == "morx-verbs":
+        model = vlib.build_model()
+        a = vlib.run_lines(shim, [rp["request"]], nproc=1)[0]
+        b = vlib.run_lines(model, [rp["request"].replace("morx rearr", "morx specverb", 1)], nproc=1)[0]
+        print("crate:", a); print("spec :", b)
+        return 0 if a.startswith("ok") and gids_of(a.split()[3]) == gids_of(b.split()[1]) else 1
     if st in ("morx-d17", "morx-shape-vs-hook"):
         a = vlib.run_lines(shim, [rp["request"]], nproc=1)[0]
         print("shape():", a[:300], "expected", rp.get("expected"))
